@@ -7,17 +7,17 @@ from .ws import log
 # property -> (plan, quick settings, thorough settings)
 #   count: grammars per wave, waves, cases per exported rule, max input length
 PLANS = {
-    "C01": dict(plan="core", quick=dict(count=192, waves=1, cases=400), thorough=dict(count=192, waves=6, cases=2000, max_len=160)),
+    "C01": dict(plan="core", quick=dict(count=192, waves=1, cases=400), thorough=dict(count=192, waves=12, cases=2000, max_len=160)),
     "C02": dict(plan="fields", quick=dict(count=192, waves=1, cases=400), thorough=dict(count=192, waves=6, cases=2000, max_len=160)),
     "C04": dict(plan="unicode", quick=dict(count=192, waves=1, cases=400), thorough=dict(count=192, waves=5, cases=1500, max_len=160)),
     "C08": dict(plan="ws", quick=dict(count=192, waves=1, cases=400), thorough=dict(count=192, waves=6, cases=2000, max_len=160)),
     "C09": dict(plan="pos", quick=dict(count=192, waves=1, cases=400), thorough=dict(count=192, waves=6, cases=2000, max_len=160)),
-    "C10": dict(plan="errors", quick=dict(count=224, waves=1, cases=400), thorough=dict(count=192, waves=6, cases=2000, max_len=160)),
-    "C14": dict(plan="hooks", quick=dict(count=192, waves=1, cases=400), thorough=dict(count=192, waves=6, cases=2000, max_len=160)),
-    "C05": dict(plan="memo", quick=dict(count=256, waves=1, cases=400), thorough=dict(count=256, waves=5, cases=2000, max_len=160)),
+    "C10": dict(plan="errors", quick=dict(count=224, waves=1, cases=400), thorough=dict(count=192, waves=12, cases=2000, max_len=160)),
+    "C14": dict(plan="hooks", quick=dict(count=192, waves=1, cases=400), thorough=dict(count=192, waves=12, cases=2000, max_len=160)),
+    "C05": dict(plan="memo", quick=dict(count=256, waves=1, cases=400), thorough=dict(count=256, waves=10, cases=2000, max_len=160)),
     "C06": dict(plan="probes", quick=dict(count=192, waves=1, cases=400), thorough=dict(count=192, waves=6, cases=2000, max_len=160)),
-    "C07": dict(plan="leftrec", quick=dict(count=192, waves=1, cases=400), thorough=dict(count=192, waves=6, cases=2000, max_len=160)),
-    "C13": dict(plan="include", quick=dict(count=256, waves=1, cases=400), thorough=dict(count=256, waves=5, cases=2000, max_len=160)),
+    "C07": dict(plan="leftrec", quick=dict(count=192, waves=1, cases=400), thorough=dict(count=192, waves=12, cases=2000, max_len=160)),
+    "C13": dict(plan="include", quick=dict(count=256, waves=1, cases=400), thorough=dict(count=256, waves=10, cases=2000, max_len=160)),
     "C20": dict(plan="sched", quick=dict(count=96, waves=1, cases=400), thorough=dict(count=128, waves=4, cases=5000, max_len=160)),
     "C19": dict(plan="mixed", quick=dict(count=192, waves=1, cases=400), thorough=dict(count=192, waves=5, cases=1500, max_len=160)),
 }
